@@ -3,6 +3,7 @@ C09, part `aff`: the pairs returned by the affine aligners (property theorems on
 -/
 import Biogo.Model.AlignAff
 import Biogo.Spec.AffPairs
+import Biogo.Proofs.TraceWF
 
 namespace Biogo.Properties.C09_aff
 open Biogo.Spec.Alignment Biogo.AlignAff Biogo.Spec.AffPairs
@@ -100,5 +101,56 @@ theorem align_total (w : Which) (M : List (List Int)) (gapOpen : Int) (ref qry :
 /-- the hypothesis of `align_total` is satisfiable, and the conclusion then names the error -/
 example : align .nw [[0, -1], [-1, 1]] (-1) ⟨some "X", 2, 0, false, [1, -1]⟩ ⟨some "X", 2, 0, false, [1]⟩
     = .error (.letterR 1) := by decide
+
+/-- "The feature pairs returned by every aligner form one monotone path: consecutive pairs
+    abut in both sequences, each pair is an equal-length ungapped block, a gap in exactly one
+    sequence, or empty with zero score; global alignments span both sequences entirely":
+    `NWAffine`, for every matrix, gap-open value and pair of sequences (whatever the table
+    holds — the proof is an invariant of the traceback loop alone). -/
+theorem trace_wf_nwAffine (S : Matrix) (gapOpen : Int) (r q : List Nat) (ps : List Pair)
+    (h : nwAlign S gapOpen r q = .ok ps) :
+    wellFormed ps = true ∧ spansAll ps r.length q.length = true :=
+  Biogo.Proofs.TraceWF.nwAlign_wf S gapOpen r q ps h
+
+/-- "… and local ones stay within bounds": `SWAffine`. -/
+theorem trace_wf_swAffine (S : Matrix) (gapOpen : Int) (r q : List Nat) (ps : List Pair)
+    (h : swAlign S gapOpen r q = .ok ps) :
+    wellFormed ps = true ∧ inBounds ps r.length q.length = true :=
+  Biogo.Proofs.TraceWF.swAlign_wf S gapOpen r q ps h
+
+/-- `FittedAffine`: one well-formed path within bounds which, after the repair of K2b, starts
+    at query position 0 and ends at the end of the query (C08: "consumes the whole query"). -/
+theorem trace_wf_fittedAffine (S : Matrix) (gapOpen : Int) (r q : List Nat) (ps : List Pair)
+    (h : fitAlign S gapOpen r q = .ok ps) :
+    wellFormed ps = true ∧ inBounds ps r.length q.length = true ∧
+      (firstStart ps).2 = 0 ∧ (lastEnd ps).2 = q.length :=
+  Biogo.Proofs.TraceWF.fitAlign_wf S gapOpen r q ps h
+
+/-- non-vacuity: the aligners do return pairs -/
+example : nwAlign (sc [[0, -1, -1], [-1, 1, -1], [-1, -1, 1]]) (-2) [1, 2, 1] [1, 1] =
+    .ok [⟨0, 1, 0, 1, 1⟩, ⟨1, 2, 1, 1, -3⟩, ⟨2, 3, 1, 2, 1⟩] := by decide +kernel
+example : swAlign (sc [[0, -1, -1], [-1, 1, -1], [-1, -1, 1]]) (-2) [1, 2, 1] [2, 1] =
+    .ok [⟨1, 3, 0, 2, 2⟩] := by decide +kernel
+example : fitAlign (sc [[0, -1, -1], [-1, 1, -1], [-1, -1, 1]]) (-2) [1, 2, 1] [2, 1] =
+    .ok [⟨1, 3, 0, 2, 2⟩] := by decide +kernel
+
+/-- all letter pairs −10, gap letters −1 -/
+def tieM : List (List Int) :=
+  [[0, -1, -1, -1, -1], [-1, -10, -10, -10, -10], [-1, -10, -10, -10, -10], [-1, -10, -10, -10, -10],
+   [-1, -10, -10, -10, -10]]
+
+/-- Refutation of "each pair's reported score equals the score recomputed from the letters,
+    matrix and gap parameters" for `NWAffine` (finding K5): with all letter pairs −10, gap
+    letters −1, gap-open −1, `r = aa`, `q = aaa` the last pair (gap in the reference against query `[2,3)`) is reported with −1
+    (no gap-open) although it is a gap of its own; recomputed −2.  The traceback compared
+    the value of the `up` layer with the `left`-extension candidate and took it. -/
+theorem pair_scores_not_faithful :
+    ∃ (M : List (List Int)) (gapOpen : Int) (r q : List Nat) (ps : List Pair),
+      gapOpen ≤ 0 ∧ (∀ x, x < 5 → sc M x 0 ≤ 0 ∧ sc M 0 x ≤ 0) ∧
+      nwAlign (sc M) gapOpen r q = .ok ps ∧ wellFormed ps = true ∧
+      faithful (sc M) gapOpen r q ps = false ∧ tieSwitched .nw (sc M) gapOpen r q = true :=
+  ⟨tieM, -1, [1, 1], [1, 1, 1],
+    [⟨0, 1, 0, 1, -10⟩, ⟨1, 1, 1, 2, -2⟩, ⟨1, 2, 2, 2, -2⟩, ⟨2, 2, 2, 3, -1⟩],
+    by decide, by decide, by decide +kernel, by decide, by decide +kernel, by decide +kernel⟩
 
 end Biogo.Properties.C09_aff
